@@ -74,8 +74,18 @@ pub fn request_frame(id: u64, notify: bool, path: &str, body: &[u8]) -> Vec<u8> 
 
 /// Byte-level request/response transport for the raw client.
 pub trait RawTransport {
+    /// write one REPE frame without waiting for anything
+    fn send(&mut self, frame: Vec<u8>) -> Result<(), String>;
+    /// read the next REPE frame from the peer (bounded by `IO_TIMEOUT`)
+    fn recv(&mut self) -> Result<Frame, String>;
     /// send one REPE frame; when `want_reply`, return the next frame from the peer
-    fn exchange(&mut self, frame: Vec<u8>, want_reply: bool) -> Result<Option<Frame>, String>;
+    fn exchange(&mut self, frame: Vec<u8>, want_reply: bool) -> Result<Option<Frame>, String> {
+        self.send(frame)?;
+        if !want_reply {
+            return Ok(None);
+        }
+        self.recv().map(Some)
+    }
 }
 
 pub struct TcpRaw {
@@ -91,12 +101,11 @@ impl TcpRaw {
     }
 }
 impl RawTransport for TcpRaw {
-    fn exchange(&mut self, frame: Vec<u8>, want_reply: bool) -> Result<Option<Frame>, String> {
-        self.s.write_all(&frame).map_err(|e| format!("write: {e}"))?;
-        if !want_reply {
-            return Ok(None);
-        }
-        read_frame(&mut self.s).map(Some)
+    fn send(&mut self, frame: Vec<u8>) -> Result<(), String> {
+        self.s.write_all(&frame).map_err(|e| format!("write: {e}"))
+    }
+    fn recv(&mut self) -> Result<Frame, String> {
+        read_frame(&mut self.s)
     }
 }
 
@@ -116,15 +125,19 @@ impl WsRaw {
     }
 }
 impl RawTransport for WsRaw {
-    fn exchange(&mut self, frame: Vec<u8>, want_reply: bool) -> Result<Option<Frame>, String> {
-        use futures_util::{SinkExt, StreamExt};
+    fn send(&mut self, frame: Vec<u8>) -> Result<(), String> {
+        use futures_util::SinkExt;
         use tokio_tungstenite::tungstenite::Message as M;
         let ws = &mut self.ws;
         self.rt.block_on(async {
-            tokio::time::timeout(IO_TIMEOUT, ws.send(M::Binary(frame))).await.map_err(|_| "ws send timeout".to_string())?.map_err(|e| format!("ws send: {e}"))?;
-            if !want_reply {
-                return Ok(None);
-            }
+            tokio::time::timeout(IO_TIMEOUT, ws.send(M::Binary(frame))).await.map_err(|_| "ws send timeout".to_string())?.map_err(|e| format!("ws send: {e}"))
+        })
+    }
+    fn recv(&mut self) -> Result<Frame, String> {
+        use futures_util::StreamExt;
+        use tokio_tungstenite::tungstenite::Message as M;
+        let ws = &mut self.ws;
+        self.rt.block_on(async {
             loop {
                 let m = tokio::time::timeout(IO_TIMEOUT, ws.next()).await.map_err(|_| "ws read timeout".to_string())?;
                 match m {
@@ -132,7 +145,7 @@ impl RawTransport for WsRaw {
                     Some(Err(e)) => return Err(format!("ws read: {e}")),
                     Some(Ok(M::Binary(b))) => {
                         let (h, ql, _bl) = oracle::valid_parse(&b, true).ok_or_else(|| format!("ws binary message is not one exact REPE frame ({} bytes)", b.len()))?;
-                        return Ok(Some(Frame { header: h, query: b[48..48 + ql].to_vec(), body: b[48 + ql..].to_vec(), at: 0 }));
+                        return Ok(Frame { header: h, query: b[48..48 + ql].to_vec(), body: b[48 + ql..].to_vec(), at: 0 });
                     }
                     Some(Ok(M::Close(_))) => return Err("ws close frame".into()),
                     Some(Ok(_)) => continue,
@@ -184,11 +197,31 @@ impl<T: RawTransport> RawSvs<T> {
     pub fn next(&mut self, stream_id: u64) -> Result<NextOut, String> {
         let body = beve::to_vec(&NextReq { stream_id }).map_err(|e| e.to_string())?;
         let f = self.call(ROUTE_NEXT, &body)?;
+        Ok(Self::next_out(f))
+    }
+    /// Interpret a response frame to a `next` request.
+    pub fn next_out(f: Frame) -> NextOut {
         if f.header.ec != 0 {
-            return Ok(NextOut::ErrResp { ec: f.header.ec, msg: String::from_utf8_lossy(&f.body).into_owned() });
+            return NextOut::ErrResp { ec: f.header.ec, msg: String::from_utf8_lossy(&f.body).into_owned() };
         }
         let last = f.query.first().copied() == Some(1);
-        Ok(NextOut::Chunk { bytes: f.body, last, query: f.query })
+        NextOut::Chunk { bytes: f.body, last, query: f.query }
+    }
+    /// Write a `next` request without waiting for the response; returns the request id. The
+    /// response is collected later with `recv_reply` (several requests may be in flight).
+    pub fn send_next(&mut self, stream_id: u64) -> Result<u64, String> {
+        let body = beve::to_vec(&NextReq { stream_id }).map_err(|e| e.to_string())?;
+        let id = self.next_id;
+        self.next_id += 1;
+        self.frames_sent += 1;
+        self.t.send(request_frame(id, false, ROUTE_NEXT, &body))?;
+        Ok(id)
+    }
+    /// Read the next response frame (whatever request it answers).
+    pub fn recv_reply(&mut self) -> Result<Frame, String> {
+        let f = self.t.recv()?;
+        self.frames_received += 1;
+        Ok(f)
     }
     /// request-form cancel; returns the ack's error code
     pub fn cancel(&mut self, stream_id: u64, notify: bool) -> Result<u32, String> {
